@@ -8,7 +8,7 @@ func init() {
 		Title: "Subscription teardown is safe under every interleaving",
 		Kernels: []Kernel{
 			{Name: "teardown-all-interleavings", Pkg: ".", Files: files, Entry: "VerifTeardown", Mode: "all", Race: true,
-				Quick: map[string]int{"maxsteps": 1, "maxevents": 1, "ticks": 0, "slim": 1}, Thorough: map[string]int{"maxsteps": 1, "maxevents": 1, "ticks": 0, "slim": 1, "kinds": 9, "mayreset": 1, "barepayload": 1, "budget_s": 6000},
+				Quick: map[string]int{"maxsteps": 1, "maxevents": 1, "ticks": 0, "slim": 1}, Thorough: map[string]int{"maxsteps": 1, "maxevents": 1, "ticks": 0, "slim": 1, "kinds": 10, "mayreset": 1, "barepayload": 1, "budget_s": 6000},
 				Reach: []string{"handler returned"}, Functions: fns},
 			// two client messages: start followed by each kind of second message, one slice per kernel
 			// (the unsliced exploration exceeded the 62 GB of this machine)
@@ -29,9 +29,14 @@ func init() {
 				Reach:    []string{"handler returned"}, Functions: fns},
 			// two running subscriptions and every third message, under the canonical schedule: what has to be
 			// closed at the end is closed (every upstream connection, every goroutine)
+			{Name: "teardown-with-sub-request-in-flight", Pkg: ".", Files: append(append([]string{}, files...), "root/c10.go", "root/c18b.go"), Entry: "VerifTeardownStalled", Mode: "seq", Race: true,
+				Reach: []string{"handler returned with a sub-request in flight"}, Functions: fns},
+			{Name: "teardown-with-sub-request-in-flight-all-interleavings", Pkg: ".", Files: append(append([]string{}, files...), "root/c10.go", "root/c18b.go"), Entry: "VerifTeardownStalled", Mode: "all", Race: true, ThoroughOnly: true,
+				Thorough: map[string]int{"budget_s": 3000},
+				Reach: []string{"handler returned with a sub-request in flight"}, Functions: fns},
 			{Name: "two-subscriptions-canonical", Pkg: ".", Files: files, Entry: "VerifTeardown", Mode: "seq",
-				Quick:    map[string]int{"maxsteps": 3, "maxevents": 1, "ticks": 0, "pin_first": 0, "pin_second": 6, "kinds": 9, "mayreset": 1, "barepayload": 1},
-				Thorough: map[string]int{"maxsteps": 3, "maxevents": 1, "ticks": 0, "pin_first": 0, "pin_second": 6, "kinds": 9, "mayreset": 1, "barepayload": 1},
+				Quick:    map[string]int{"maxsteps": 3, "maxevents": 1, "ticks": 0, "pin_first": 0, "pin_second": 6, "kinds": 10, "mayreset": 1, "barepayload": 1},
+				Thorough: map[string]int{"maxsteps": 3, "maxevents": 1, "ticks": 0, "pin_first": 0, "pin_second": 6, "kinds": 10, "mayreset": 1, "barepayload": 1},
 				Reach:    []string{"handler returned", "two subscriptions running"}, Functions: fns},
 			// a second connection_init while a subscription delivers an event: the acknowledgement and the event
 			// frame are written by different goroutines
